@@ -9,6 +9,9 @@ import RtenVerif.Lemmas.OnnxRefTranspose
 import RtenVerif.Lemmas.OnnxRefGather
 import RtenVerif.Lemmas.OnnxRefReshape
 import RtenVerif.Lemmas.OnnxRefSqueeze
+import RtenVerif.Lemmas.OnnxRefTile
+import RtenVerif.Lemmas.OnnxRefCumSum
+import RtenVerif.Lemmas.OnnxRefPool
 /-!
 # C15 — Operators conform to ONNX reference semantics (partial)
 
@@ -220,5 +223,53 @@ theorem c15_squeeze_unsqueeze (s axes : List Nat)
 example : ((List.range ([2, 3].length + [3, 0].length)).filter (fun j => [3, 0].contains j)).length = [3, 0].length := by
   decide
 example : insertOnes [2, 3] 0 [3, 0] 4 = [1, 2, 3, 1] ∧ removeAxes [1, 2, 3, 1] [3, 0] = [2, 3] := by decide
+
+/-! ## Tile / CumSum -/
+
+/-- L21. Tile = Concat of copies: tiling `k+1` times along `ax` (once along every other axis) is the
+concatenation along `ax` of the `k`-fold tiling with one more copy of `x`. -/
+theorem c15_tile_concat (x : Tensor) (reps : List Nat) (ax k : Nat)
+    (hl : reps.length = x.shape.length) (hax : ax < x.shape.length)
+    (hone : ∀ j, j < x.shape.length → j ≠ ax → getN reps j = 1) :
+    tileCore x (reps.set ax (k + 1)) = concat2 ax (tileCore x (reps.set ax k)) x :=
+  tile_succ x reps ax k hl hax hone
+
+example : (tileCore ⟨[2, 2], [1, 2, 3, 4]⟩ [1, 2]).data = [1, 2, 1, 2, 3, 4, 3, 4] := by decide
+example : (concat2 1 ⟨[2, 2], [1, 2, 3, 4]⟩ ⟨[2, 2], [1, 2, 3, 4]⟩).data = [1, 2, 1, 2, 3, 4, 3, 4] := by decide
+
+/-- L22. `CumSum(reverse = 1)` = flip ∘ `CumSum(reverse = 0)` ∘ flip along the axis (inclusive and
+exclusive variants); `flipAx` reverses the axis. -/
+theorem c15_cumsum_reverse (x : Tensor) (ax : Nat) (excl : Bool) (hax : ax < x.shape.length) :
+    cumsumCore x ax excl true = flipAx (cumsumCore (flipAx x ax) ax excl false) ax :=
+  cumsum_reverse x ax excl hax
+
+example : (cumsumCore ⟨[4], [1, 2, 3, 4]⟩ 0 false true).data = [10, 9, 7, 4] := by decide
+example : (cumsumCore ⟨[4], [1, 2, 3, 4]⟩ 0 true true).data = [9, 7, 4, 0] := by decide
+example : (flipAx ⟨[2, 2], [1, 2, 3, 4]⟩ 1).data = [2, 1, 4, 3] := by decide
+
+/-! ## Pooling reference -/
+
+/-- L23. AveragePool with a 1×…×1 kernel, unit strides / dilations and no padding is the identity (either
+rounding mode, either `count_include_pad`): validates the window position and divisor of the reference. -/
+theorem c15_avgpool_identity (x : Tensor) (n : Nat) (ceil cip : Bool) (hn : n ≥ 1)
+    (hr : x.shape.length = n + 2) (hwf : x.data.length = prod x.shape)
+    (hpos : ∀ a, a < n → getN (x.shape.drop 2) a ≥ 1) :
+    pool "avg" x (List.replicate n 1) (List.replicate n 1) (List.replicate n 1) (List.replicate (2 * n) 0)
+      ceil "NOTSET" cip 1 = .ok x :=
+  avgPool_identity x n ceil cip hn hr hwf hpos
+
+/-- L24. `Global{Max,Average}Pool` is the `{Max,Average}Pool` computation with kernel = the whole spatial
+extent, unit strides, no padding (holds by construction of the reference; stated for completeness). -/
+theorem c15_globalpool_is_pool (mode : String) (a : Attrs) (x : Tensor) (h3 : x.rank ≥ 3) :
+    globalPoolOp mode a [some x] =
+      (pool mode x (x.shape.drop 2) (List.replicate (x.shape.drop 2).length 1)
+        (List.replicate (x.shape.drop 2).length 1) (List.replicate (2 * (x.shape.drop 2).length) 0)
+        false "NOTSET" false (a.int "scale" 1)).map (fun r => [r]) :=
+  globalPool_is_pool mode a x h3
+
+example : (match pool "max" ⟨[1, 1, 4], [3, 9, 2, 5]⟩ [2] [2] [1] [0, 0] false "NOTSET" false 1 with
+    | .ok t => (t.shape, t.data) | .error _ => ([], [])) = ([1, 1, 2], [9, 5]) := by decide
+example : (match pool "avg" ⟨[1, 1, 3], [1, 2, 4]⟩ [2] [1] [1] [0, 0] false "NOTSET" false 2 with
+    | .ok t => (t.shape, t.data) | .error _ => ([], [])) = ([1, 1, 2], [3, 6]) := by decide
 
 end RtenVerif.OnnxRef
